@@ -369,10 +369,7 @@ Fixpoint exec (m : mode) (s : sch) (f : fl) (dat : data) (d : dval) (x : st) {st
 
   | SStruct fs tests pts =>
     let dtype := "struct" in
-    let wrap := match m with
-                | Parse => fun (y : string) e => mk_err_issue y dtype (uerr_text e)      (* ctx.Issue().SetError(err) *)
-                | Validate => fun (y : string) e => mk_unknown_issue y dtype e
-                end in
+    let wrap := fun (y : string) e => mk_unknown_issue y dtype e in     (* ctx.IssueFromUnknownError(err), both modes *)
     let body (pv : prov) :=
       let '(_, dfs, x1) := fields_loop (exec m) m pv fs fl0 (dstruct_fields d) x in
       let d1 := DStruct dfs in
